@@ -82,6 +82,7 @@ type Group struct {
 	Count    int            `json:"count"`
 	Shapes   map[string]int `json:"shapes"`
 	Variants map[string]int `json:"variants"`
+	Vias     map[string]int `json:"vias"`
 	Examples []Example      `json:"examples"`
 }
 
@@ -100,7 +101,7 @@ func (g *groups) add(stage, op, kind, cc, qc, tc, want, got, shape, variant stri
 	gr := g.m[k]
 	if gr == nil {
 		gr = &Group{Stage: stage, Op: op, Kind: kind, Cc: cc, Qc: qc, Tc: tc, Want: want, Got: got,
-			Shapes: map[string]int{}, Variants: map[string]int{}}
+			Shapes: map[string]int{}, Variants: map[string]int{}, Vias: map[string]int{}}
 		g.m[k] = gr
 	}
 	gr.Count++
@@ -108,9 +109,20 @@ func (g *groups) add(stage, op, kind, cc, qc, tc, want, got, shape, variant stri
 	if variant != "" {
 		gr.Variants[variant]++
 	}
+	if ex.Via != "" {
+		gr.Vias[ex.Via]++
+	}
+	// keep the three most readable examples (fewest quotes, shortest)
 	if len(gr.Examples) < 3 {
 		gr.Examples = append(gr.Examples, ex)
+	} else if worst := len(gr.Examples) - 1; complexity(ex) < complexity(gr.Examples[worst]) {
+		gr.Examples[worst] = ex
 	}
+	sort.SliceStable(gr.Examples, func(i, j int) bool { return complexity(gr.Examples[i]) < complexity(gr.Examples[j]) })
+}
+
+func complexity(ex Example) int {
+	return 100*strings.Count(ex.Ks+ex.Text, "\"") + 10*strings.Count(ex.Text, "\n") + len(ex.Ks) + len(ex.Text)
 }
 
 func (g *groups) list() []*Group {
@@ -236,16 +248,18 @@ func dispOf(handled bool) string {
 // ---------------------------------------------------------------------------- end to end
 
 type worker struct {
-	id      int
-	e       *env.Env
-	t       *tracer.Tracer
-	conns   map[int]bool      // backend connection id -> established (its session's own USE, if any, is behind it)
-	seenBk  map[string]string // token -> op seen at the backend
-	local   map[string]Example
-	seq     int
-	startup bool // scanning the events of the proxy's start-up
-	res     *result
-	mis     *groups
+	id         int
+	e          *env.Env
+	t          *tracer.Tracer
+	conns      map[int]bool      // backend connection id -> established (its session's own USE, if any, is behind it)
+	seenBk     map[string]string // token -> op seen at the backend
+	local      map[string]Example
+	seq        int
+	keyspaces  []string
+	failedUses int
+	startup    bool // scanning the events of the proxy's start-up
+	res        *result
+	mis        *groups
 }
 
 type result struct {
@@ -287,18 +301,36 @@ func keyspacesOf(behs []*Beh) []string {
 }
 
 func newWorker(id int, keyspaces []string, res *result, mis *groups) (*worker, error) {
-	t := tracer.New()
-	e, err := env.Start(env.Options{Nodes: 1, NumConns: 1, Keyspaces: keyspaces, Tracer: t,
-		HeartBeat: 30 * time.Minute, Idle: 60 * time.Minute})
-	if err != nil {
+	w := &worker{id: id, keyspaces: keyspaces, res: res, mis: mis}
+	if err := w.start(); err != nil {
 		return nil, err
 	}
-	w := &worker{id: id, e: e, t: t, conns: map[int]bool{}, seenBk: map[string]string{}, local: map[string]Example{}, res: res, mis: mis}
+	return w, nil
+}
+
+// start brings up a fresh fake cluster and proxy for this worker.
+func (w *worker) start() error {
+	t := tracer.New()
+	e, err := env.Start(env.Options{Nodes: 1, NumConns: 1, Keyspaces: w.keyspaces, Tracer: t,
+		HeartBeat: 30 * time.Minute, Idle: 60 * time.Minute})
+	if err != nil {
+		return err
+	}
+	w.e, w.t, w.conns, w.seenBk, w.local, w.failedUses = e, t, map[int]bool{}, map[string]string{}, map[string]Example{}, 0
 	// the connections of start-up (control connection, keyspace-less session) never send a USE of their own
 	w.startup = true
 	w.scan(t.Events(), "")
 	w.startup = false
-	return w, nil
+	return nil
+}
+
+// recycle replaces the proxy and the backend. Every failed USE leaves a backend connection of
+// the proxy open for the life of the process (the session that could not be created does not
+// close it), so a long run would exhaust the file descriptors; shutting the fake cluster down
+// releases them.
+func (w *worker) recycle() error {
+	w.finish()
+	return w.start()
 }
 
 func num(v interface{}) int {
@@ -419,6 +451,9 @@ func (w *worker) runBehaviour(b *Beh, sample bool) {
 			continue
 		}
 		r := w.roundtrip(c, int16(i+1), msg)
+		if st.Role == "faileduse" {
+			w.failedUses++
+		}
 		cls := st
 		if st.Op == "EXECUTE" && prepStep != nil {
 			cls = prepStep // the statement was bound to the keyspace at PREPARE time
@@ -651,7 +686,7 @@ func main() {
 			}
 		}
 		for _, b := range behs {
-			if rnd.Float64() < *frac {
+			if rnd.Float64() < *frac || b.Via == "faileduse_query" { // the failed-USE behaviours are few: all of them
 				picked[b] = true
 			}
 		}
@@ -699,6 +734,11 @@ func main() {
 					}
 					w.runBehaviour(chosen[k], n < 1 && wi < 4)
 					n++
+					if w.failedUses >= 250 {
+						if err := w.recycle(); err != nil {
+							panic(err)
+						}
+					}
 				}
 				if wi == 0 {
 					// observation only: comment spellings of a topology read, end to end
